@@ -13,7 +13,9 @@ Definition r32 (x : float) : float := of_b32 (to_b32 x).
 Definition next_up32 (x : float) : float := of_b32 (@nnext_up _ NumB32 (to_b32 x)).
 Definition next_dn32 (x : float) : float := of_b32 (@nnext_dn _ NumB32 (to_b32 x)).
 
-Global Instance NumF32 : Num float := {|
+(** a plain definition, NOT an instance: type-class resolution on [float] must keep finding [NumF];
+    the f32 runners pass [NumF32] explicitly *)
+Definition NumF32 : Num float := {|
   nadd := fun a b => r32 (a + b); nsub := fun a b => r32 (a - b);
   nmul := fun a b => r32 (a * b); ndiv := fun a b => r32 (a / b);
   nneg := PrimFloat.opp; nabs := PrimFloat.abs; nsqrt := fun a => r32 (PrimFloat.sqrt a);
